@@ -1944,3 +1944,190 @@ def m_vec_push(ctx, args):
     old = val(ctx, args[0])
     ctx.eng.write_ref(ctx.st, args[0], ("pushed", old, args[1]))
     return UNIT
+
+
+# ---------------------------------------------------------------------------------------------------------------
+# further std combinators (added after the refactoring waves: anything unmodelled is an opaque call, i.e. sound but
+# fail-closed; each entry here is the function's definition, nothing repo-specific)
+@model("std::option::Option::or")
+def m_opt_or(ctx, args):
+    c = variant_cond(ctx.eng, args[0], 1)
+    return ctx.eng.mk_ite(c, args[0], args[1])
+
+
+@model("std::option::Option::or_else")
+def m_opt_or_else(ctx, args):
+    eng = ctx.eng
+    c = variant_cond(eng, args[0], 1)
+    nc = eng.bdd.NOT(c)
+    r = guarded(ctx, nc, lambda: call_closure(ctx, args[1], [])) if nc != 0 else UNDEF
+    return eng.mk_ite(c, args[0], r)
+
+
+@model("std::option::Option::and")
+def m_opt_and(ctx, args):
+    c = variant_cond(ctx.eng, args[0], 1)
+    return ctx.eng.mk_ite(c, args[1], NONE)
+
+
+@model("std::option::Option::is_some_and")
+def m_opt_is_some_and(ctx, args):
+    eng = ctx.eng
+    c = variant_cond(eng, args[0], 1)
+    if c == 0:
+        return ("b", 0)
+    r = guarded(ctx, c, lambda: call_closure(ctx, args[1], [payload(eng, args[0], 1)]))
+    return ("b", eng.bdd.AND(c, eng.tobdd(r)))
+
+
+@model("std::option::Option::is_none_or")
+def m_opt_is_none_or(ctx, args):
+    eng = ctx.eng
+    c = variant_cond(eng, args[0], 1)
+    if c == 0:
+        return ("b", 1)
+    r = guarded(ctx, c, lambda: call_closure(ctx, args[1], [payload(eng, args[0], 1)]))
+    return ("b", eng.bdd.OR(eng.bdd.NOT(c), eng.tobdd(r)))
+
+
+@model("std::option::Option::copied", "std::option::Option::cloned")
+def m_opt_copied(ctx, args):
+    eng = ctx.eng
+    c = variant_cond(eng, args[0], 1)
+    return eng.mk_ite(c, some(eng.deref_value(ctx.st, payload(eng, args[0], 1))), NONE)
+
+
+@model("std::option::Option::flatten")
+def m_opt_flatten(ctx, args):
+    eng = ctx.eng
+    c = variant_cond(eng, args[0], 1)
+    return eng.mk_ite(c, payload(eng, args[0], 1), NONE)
+
+
+@model("std::option::Option::xor")
+def m_opt_xor(ctx, args):
+    eng = ctx.eng
+    a, b = variant_cond(eng, args[0], 1), variant_cond(eng, args[1], 1)
+    return eng.mk_ite(eng.bdd.AND(a, eng.bdd.NOT(b)), args[0], eng.mk_ite(eng.bdd.AND(b, eng.bdd.NOT(a)), args[1], NONE))
+
+
+@model("std::result::Result::err")
+def m_res_err(ctx, args):
+    eng = ctx.eng
+    c = variant_cond(eng, args[0], 0)
+    return eng.mk_ite(c, NONE, some(payload(eng, args[0], 1)))
+
+
+@model("std::result::Result::unwrap_or")
+def m_res_unwrap_or(ctx, args):
+    eng = ctx.eng
+    c = variant_cond(eng, args[0], 0)
+    return eng.mk_ite(c, payload(eng, args[0], 0), args[1])
+
+
+@model("std::result::Result::unwrap_or_else")
+def m_res_unwrap_or_else(ctx, args):
+    eng = ctx.eng
+    c = variant_cond(eng, args[0], 0)
+    nc = eng.bdd.NOT(c)
+    r = guarded(ctx, nc, lambda: call_closure(ctx, args[1], [payload(eng, args[0], 1)])) if nc != 0 else UNDEF
+    return eng.mk_ite(c, payload(eng, args[0], 0), r)
+
+
+@model("std::result::Result::or_else")
+def m_res_or_else(ctx, args):
+    eng = ctx.eng
+    c = variant_cond(eng, args[0], 0)
+    nc = eng.bdd.NOT(c)
+    r = guarded(ctx, nc, lambda: call_closure(ctx, args[1], [payload(eng, args[0], 1)])) if nc != 0 else UNDEF
+    return eng.mk_ite(c, ok(payload(eng, args[0], 0)), r)
+
+
+@model("std::result::Result::and")
+def m_res_and(ctx, args):
+    eng = ctx.eng
+    c = variant_cond(eng, args[0], 0)
+    return eng.mk_ite(c, args[1], err(payload(eng, args[0], 1)))
+
+
+@model("std::result::Result::map_or")
+def m_res_map_or(ctx, args):
+    eng = ctx.eng
+    c = variant_cond(eng, args[0], 0)
+    if c == 0:
+        return args[1]
+    r = guarded(ctx, c, lambda: call_closure(ctx, args[2], [payload(eng, args[0], 0)]))
+    return eng.mk_ite(c, r, args[1])
+
+
+@model("std::result::Result::map_or_else")
+def m_res_map_or_else(ctx, args):
+    eng = ctx.eng
+    c = variant_cond(eng, args[0], 0)
+    nc = eng.bdd.NOT(c)
+    a = guarded(ctx, c, lambda: call_closure(ctx, args[2], [payload(eng, args[0], 0)])) if c != 0 else UNDEF
+    b = guarded(ctx, nc, lambda: call_closure(ctx, args[1], [payload(eng, args[0], 1)])) if nc != 0 else UNDEF
+    return eng.mk_ite(c, a, b)
+
+
+@model("std::result::Result::is_ok_and")
+def m_res_is_ok_and(ctx, args):
+    eng = ctx.eng
+    c = variant_cond(eng, args[0], 0)
+    if c == 0:
+        return ("b", 0)
+    r = guarded(ctx, c, lambda: call_closure(ctx, args[1], [payload(eng, args[0], 0)]))
+    return ("b", eng.bdd.AND(c, eng.tobdd(r)))
+
+
+@model("std::result::Result::is_err_and")
+def m_res_is_err_and(ctx, args):
+    eng = ctx.eng
+    c = variant_cond(eng, args[0], 0)
+    nc = eng.bdd.NOT(c)
+    if nc == 0:
+        return ("b", 0)
+    r = guarded(ctx, nc, lambda: call_closure(ctx, args[1], [payload(eng, args[0], 1)]))
+    return ("b", eng.bdd.AND(nc, eng.tobdd(r)))
+
+
+@model("std::mem::replace", "core::mem::replace")
+def m_mem_replace(ctx, args):
+    old = ctx.eng.deref_value(ctx.st, args[0])
+    ctx.eng.write_ref(ctx.st, args[0], args[1])
+    return old
+
+
+@model("std::mem::swap", "core::mem::swap")
+def m_mem_swap(ctx, args):
+    a = ctx.eng.deref_value(ctx.st, args[0])
+    b = ctx.eng.deref_value(ctx.st, args[1])
+    ctx.eng.write_ref(ctx.st, args[0], b)
+    ctx.eng.write_ref(ctx.st, args[1], a)
+    return UNIT
+
+
+@model("std::convert::identity", "core::convert::identity")
+def m_identity(ctx, args):
+    return args[0]
+
+
+@model("core::num::checked_neg")
+def m_checked_neg(ctx, args):
+    ts = _self_int_ty(ctx)
+    x = args[0]
+    if ts.startswith("i") and ts[1:].isdigit():
+        mn = -(1 << (int(ts[1:]) - 1))
+        at_min = ctx.eng.bdd.NOT(ctx.eng.bdd.var(("icmp", "Lt", ("int", mn), x, ts)))
+        return ctx.eng.mk_ite(at_min, NONE, some(("ineg", x, ts)))
+    is0 = ctx.eng.bdd.NOT(ctx.eng.bdd.var(("icmp", "Lt", ("int", 0), x, ts)))
+    return ctx.eng.mk_ite(is0, some(("int", 0)), NONE)
+
+
+@model("core::num::signum")
+def m_signum(ctx, args):
+    ts = _self_int_ty(ctx)
+    x = args[0]
+    neg = ctx.eng.bdd.var(("icmp", "Lt", x, ("int", 0), ts))
+    pos = ctx.eng.bdd.var(("icmp", "Lt", ("int", 0), x, ts))
+    return ctx.eng.mk_ite(neg, ("int", -1), ctx.eng.mk_ite(pos, ("int", 1), ("int", 0)))
